@@ -186,13 +186,26 @@ def parse_vers(s):
 
 
 def parse_trace(s):
+    """entries (broker, api key, version, key type or None); find-coordinator entries carry the
+    KeyType the broker decoded"""
     tr, status = s.rsplit("/", 1)
     ents = []
     if tr != ".":
         for e in tr.split(","):
-            b, k, v = e.split(":")
-            ents.append((Z(b[1:]), Z(k), Z(v)))
+            f = e.split(":")
+            ents.append((Z(f[0][1:]), Z(f[1]), Z(f[2]), Z(f[3]) if len(f) > 3 else None))
     return ents, status
+
+
+def expected_version(client, table, key):
+    """what SelectVersion must give (independent statement)"""
+    cmin, cmax = client.get(key, (0, 0))
+    if key not in table:
+        return 0
+    bmin, bmax = table[key]
+    if bmax < cmin:
+        return cmin
+    return min(cmax, bmax)
 
 
 # ----------------------------------------------------------------------------- property predicates
@@ -366,7 +379,7 @@ def pred_send(a, go):
     return []
 
 
-def e2e_expect(boot, md, req, fc):
+def e2e_expect(boot, md, req, fc, fcver=1):
     """independent reading of the property for one end-to-end request: list of acceptable
     (broker id, api key) journals, or a finding key"""
     c = layout_of(sorted_md(md))
@@ -391,12 +404,18 @@ def e2e_expect(boot, md, req, fc):
     if kind in ("g", "t"):
         api, _ = v.split(":")
         api = Z(api)
-        e, node = [Z(x) for x in fc.split("/")]
+        # group APIs look up the GROUP coordinator of the key, transactional ones the TRANSACTION
+        # coordinator; KeyType exists on the wire from find-coordinator v1 on
+        kt = 1 if api in TXN_COORD_APIS else 0
+        if fcver < 1:
+            kt = 0
+        e, node = [Z(x) for x in fc.split(",")[kt].split("/")]
+        look = (boot, 10, kt)
         if e != 0:
-            return ("trace", [(boot, 10)]), None   # the lookup failed: nothing is sent after it
+            return ("trace", [look]), None   # the lookup failed: nothing is sent after it
         if node in c["brokers"]:
-            return ("trace", [(boot, 10), (node, api)]), None
-        return ("trace", [(boot, 10)]), None
+            return ("trace", [look, (node, api)]), None
+        return ("trace", [look]), None
     if kind == "lgs":
         return ("multiset", [(b, 16) for b in c["brokers"]]), None
     return None, None
@@ -412,16 +431,17 @@ def pred_e2e(a, go):
             out.append((None, "metadata served from the cache differs from the last answer restricted to the requested names"))
         return out
     ents, status = parse_trace(go)
-    for b, k, v in ents:
+    for b, k, v, _ in ents:
         ok, why = version_ok(client, vers.get(b, {}), k, v)
         if not ok:
             out.append((None, f"request api {k} to broker {b} encoded at version {v}: {why}"))
-    got = [(b, k) for b, k, _ in ents]
-    exp, finding = e2e_expect(boot, md, req, fc)
+    got = [(b, k) if k != 10 else (b, k, kt) for b, k, _, kt in ents]
+    fcver = expected_version(client, vers.get(boot, {}), 10)
+    exp, finding = e2e_expect(boot, md, req, fc, fcver)
     if exp is None:
         return out
-    if req[:2] in ("g=", "t=") and Z(fc.split("/")[0]) != 0 and status != "err":
-        out.append((None, "find-coordinator answered an error code but the round trip did not fail"))
+    if req[:2] in ("g=", "t=") and exp[1] and len(exp[1]) == 1 and status != "err":
+        out.append((None, "the coordinator lookup gave no usable coordinator but the round trip did not fail"))
     kind, want = exp
     if kind == "trace":
         if got != want:
@@ -432,6 +452,27 @@ def pred_e2e(a, go):
     elif kind == "ctl-unknown":
         if got:
             out.append((finding, f"layout has no controller yet api {want} was sent to broker {got[0][0]}"))
+    return out
+
+
+def pred_e2erec(a, go):
+    boot, md0, md1, faults, vers, client, req = Z(a[0]), parse_md(a[1]), parse_md(a[2]), a[3], parse_vers(a[4]), parse_ranges(a[5]), a[6]
+    state, _, tr = go.partition(":")
+    what = {"t": "timed out", "i": "failed with an i/o error"}.get(faults.split(",")[0], "failed")
+    n = len(faults.split(","))
+    if state != "live":
+        return [(None, f"{n} metadata refresh(es) {what}; the brokers answer again and leaders moved, but the cached metadata "
+                       f"did not follow within 3s (50 MetadataTTLs): the refresh loop stopped")]
+    ents, status = parse_trace(tr)
+    exp, _ = e2e_expect(boot, md1, req, "-")
+    got = [(b, k) for b, k, _, _ in ents]
+    if got != exp[1]:
+        return [(None, f"after {n} refresh(es) that {what} and a leader move the request went to {got}, the new leader is {exp[1]}")]
+    out = []
+    for b, k, v, _ in ents:
+        ok, why = version_ok(client, vers.get(b, {}), k, v)
+        if not ok:
+            out.append((None, f"request api {k} to broker {b} encoded at version {v}: {why}"))
     return out
 
 
@@ -458,6 +499,8 @@ def predicates(c):
             return pred_send(a, go)
         if op == "e2e":
             return pred_e2e(a, go)
+        if op == "e2erec":
+            return pred_e2erec(a, go)
         if op == "e2efail":
             return [(None, "requests did not follow the cluster within the watchdog: " + go)]
     except Exception as e:            # a malformed line is a broken correspondence, not a pass
@@ -484,12 +527,13 @@ def correspondence(ctx):
     model = L.ocaml_build("c12")
     n = ctx.scale(4000, 20000)
     e2e = ctx.scale(120, 600)
+    rec = ctx.scale(24, 120)
     texts = []
     cdir = os.path.join(L.CORPUS, "C12")
     if os.path.isdir(cdir):
         for f in sorted(os.listdir(cdir)):
             texts.append(open(os.path.join(cdir, f)).read())
-    rc, out, err, dt = L.sh([gobin, "-seed", str(ctx.seed), "-n", str(n), "-e2e", str(e2e)], timeout=3000)
+    rc, out, err, dt = L.sh([gobin, "-seed", str(ctx.seed), "-n", str(n), "-e2e", str(e2e), "-rec", str(rec)], timeout=3000)
     if rc != 0:
         raise L.Fail("correspondence", "harness cmd/c12 crashed", (out[-1500:] + err[-2500:]))
     texts.append(out)
@@ -545,6 +589,8 @@ def correspondence(ctx):
     failures = failures[:40]
     ev, dn, hist = L.coverage_counts(cases, trivial_feats=("", "small", "equal", "classification"))
     lag_hist = {k: v for k, v in hist.items() if k.startswith("e2e:lag") or k.startswith("e2e:first-view")}
+    rec_hist = {k: v for k, v in hist.items() if k.startswith("e2erec:recovered") or k.startswith("e2erec:fault=")
+                or k.startswith("e2erec:k=") or k.startswith("e2e:coordinators-differ") or k.startswith("e2e:fc>=v1")}
     out = dict(evaluations=ev, distinct_nontrivial=dn, hist=hist,
                rule="cases from one PRNG (VERIF_SEED). Direct: SelectVersion over every registered API key and broker ranges "
                     "(disjoint below/above, equal, nested either way, touching, arbitrary int16); generated metadata (0-6 brokers incl. "
@@ -556,12 +602,18 @@ def correspondence(ctx):
                     "with a refusing dial function. End to end: kafka.Transport (MetadataTTL 30ms) over net.Pipe to a 3-6 broker fake with "
                     "per-broker ApiVersions tables, 4 phases (initial, leader moves, broker added + leaderless partition + no controller, "
                     "broker removed), 8-12 requests per phase plus 3 during each pending refresh; each journal compared with the model's "
-                    "prediction from the metadata in force and judged by the Python predicates. Non-trivial: feature vector other than "
+                    "prediction from the metadata in force and judged by the Python predicates; find-coordinator is answered per (key, key type) "
+                    "with mostly different nodes for the same string and the journal records the key type of each lookup. Refresh-loop "
+                    "recovery (MetadataTTL 60ms): the transport's own Metadata requests are left unanswered for a full TTL k=1..3 times, "
+                    "or the connection is closed under them, then the brokers answer again and every leader moves; the cached view must "
+                    "follow within 3s and a fetch must go to the new leader. Non-trivial: feature vector other than "
                     "the happy-path default; distinct by hash of op+args",
                samples=[c["line"][:300] + " | " + c["go"][:100] for c in cases[:2] + cases[len(cases)//3:len(cases)//3+2]
                         + cases[len(cases)//2:len(cases)//2+2] + cases[-2:]],
                failures=failures,
-               notes=["refresh lag after a cluster change (end-to-end, MetadataTTL 30ms): " + json.dumps(lag_hist, sort_keys=True)],
+               notes=["refresh lag after a cluster change (end-to-end, MetadataTTL 30ms): " + json.dumps(lag_hist, sort_keys=True),
+                      "refresh-loop recovery after timed-out / failed refreshes (MetadataTTL 60ms) and coordinator key types: "
+                      + json.dumps(rec_hist, sort_keys=True)],
                extra={})
     return out
 
